@@ -286,7 +286,7 @@ impl<'a> Scanner<'a> {
                                 "i64" if n <= i64::MAX as u64 => {
                                     TokenEnum::SignedNum(n as i64, SignedNumType::I64)
                                 }
-                                "usize" if n <= usize::MAX as u64 => {
+                                "usize" if n <= u32::MAX as u64 => {
                                     TokenEnum::UnsignedNum(n, UnsignedNumType::Usize)
                                 }
                                 "u8" if n <= u8::MAX as u64 => {
